@@ -499,7 +499,7 @@ pub enum ChildEnd {
 }
 
 pub fn single_case_cpu_limit_s() -> u64 {
-    std::env::var("DLTSIM_CPU_LIMIT").ok().and_then(|s| s.parse().ok()).unwrap_or(3 * crate::watch::hang_cpu_limit_s())
+    std::env::var("DLTSIM_CPU_LIMIT").ok().and_then(|s| s.parse().ok()).unwrap_or(4 * crate::watch::hang_cpu_limit_s())
 }
 
 fn signal_name(s: i32) -> String {
@@ -686,7 +686,16 @@ fn handle_dead_child(sc: &dyn Scenario, tier: Tier, journal: &str, end: ChildEnd
         }
     }
     let Some((c, file, e)) = found else {
-        println!("HARNESS-ERROR: the check process died ({}) but none of the {} in-flight runs kills a fresh process; see stderr above", how, inflight.len());
+        if inflight.iter().any(|c| c.hang) {
+            println!(
+                "HARNESS-ERROR: the watchdog stopped the check because one run had used more than {} s of CPU, but executed alone in a fresh process that run ends (within {} s): it is slow, not endless. No verdict; the run indices in flight were {:?}",
+                crate::watch::hang_cpu_limit_s(),
+                single_case_cpu_limit_s(),
+                inflight.iter().map(|c| (c.stage, c.run)).collect::<Vec<_>>()
+            );
+        } else {
+            println!("HARNESS-ERROR: the check process died ({}) but none of the {} in-flight runs kills a fresh process; see stderr above", how, inflight.len());
+        }
         return 2;
     };
     let (clause, sig) = crash_sig(prop, &e, c.hang);
@@ -724,7 +733,7 @@ fn handle_dead_child(sc: &dyn Scenario, tier: Tier, journal: &str, end: ChildEnd
         return 2;
     }
     // minimise with evaluation in subprocesses; a hanging case costs its CPU limit per evaluation
-    // (a run that does not end is minimised under a smaller CPU limit than the 20 s of the batch —
+    // (a run that does not end is minimised under a smaller CPU limit than the 60 s of the batch —
     // every candidate that still "hangs" costs that limit — and the limit becomes part of the replay
     // file: replaying means "this case needs more than that much CPU", where a legitimate case of
     // its size needs milliseconds)
